@@ -19,13 +19,16 @@ ASSUMPTIONS = ["programs are sampled, not enumerated (TLC simulator); the micro-
 
 def signature(f):
     d = f.get("detail") or {}
-    return "syntax %s %s" % (d.get("kind"), d.get("what", ""))
+    return "%s %s %s" % ("syntax" if f.get("family") in (None, "syntax") else f.get("family"), d.get("kind"), d.get("what", ""))
 
 
 def run(ctx):
     n = 600 if ctx.quick else 6000
     ctx.tlc("MC_Syntax", "MC_Syntax_sim", replay="syntax", simulate={"num": n, "depth": 500, "procs": 12},
             label="MC_Syntax_sim", timeout=7200)
+    # bounded-exhaustive micro-family: every argument list <= 3 of the known directives (and a foreign one) x bare / quoted x
+    # element: Attributes!ParseIsMeaning in TLC, and the attribute the compiled AST shows is the form the list means
+    ctx.tlc("MC_AttrArgs", "MC_AttrArgs", replay="rules", coverage=False)
     # chains of aliases across modules (the family of C03): the type a member ends up with is the type the source names
     ctx.tlc("MC_AliasChain", "MC_AliasChain_" + ctx.tier, replay="aliaschain", coverage=False)
     # name collisions across scopes and files (the arrangements of C15): identifiers that collide across scopes (a definition, a member and a module with one scoped name): the same AST in every file order
